@@ -58,8 +58,32 @@ def setup(ctx: Any) -> None:
     install_merge_contract(ctx)
 
 
+PRE_CALLS = ["get_gpu_kernel_breakdown", "get_comm_comp_overlap", "get_idle_time_breakdown", "get_memory_bw_time_series", "get_temporal_breakdown",
+             "get_queue_length_time_series", "get_cuda_kernel_launch_stats"]
+
+
+def pre_call(ta, name: str, ranks) -> None:  # noqa: ANN001
+    """Another read-only analysis on the same object first; its own result is judged by its own property, here only what it
+    leaves behind matters, so its exceptions are ignored."""
+    try:
+        if name in ("get_memory_bw_time_series", "get_queue_length_time_series"):
+            getattr(ta, name)(ranks)
+        elif name == "get_idle_time_breakdown":
+            ta.get_idle_time_breakdown(ranks=ranks, visualize=False)
+        elif name == "get_cuda_kernel_launch_stats":
+            ta.get_cuda_kernel_launch_stats(ranks=ranks, visualize=False)
+        elif name == "get_gpu_kernel_breakdown":
+            ta.get_gpu_kernel_breakdown(visualize=False, include_memory_kernels=True)
+        else:
+            getattr(ta, name)(visualize=False)
+    except Exception:  # noqa: BLE001
+        pass
+
+
 def gen_case(rnd, tier: str, i: Any) -> Dict[str, Any]:
-    return gen_int.gen_case(rnd, tier)
+    c = gen_int.gen_case(rnd, tier)
+    c["pre_calls"] = rnd.sample(PRE_CALLS, rnd.choice([0, 0, 1, 2, 3]))
+    return c
 
 
 def fixed_cases(tier: str):
@@ -107,6 +131,10 @@ def run_case(case: Dict[str, Any], ctx: Any) -> core.CaseResult:
         ok, ta = drv.guard(res, "TraceAnalysis(load)", drv.new_analysis, d)
         if not ok:
             return res
+        for nm in case.get("pre_calls", []):
+            pre_call(ta, nm, sorted(per_rank))
+        if case.get("pre_calls"):
+            res.counters["calls_after_history"] += 1
         ok, tb = drv.guard(res, "get_temporal_breakdown", ta.get_temporal_breakdown, visualize=False)
         if not ok:
             return res
